@@ -1,5 +1,6 @@
 """Property registry: id -> (rule function, floors, evidence metadata)."""
 import props_policy
+import props_sketch
 
 COMMON_ASSUMPTIONS = [
     "rustc's type checker / MIR construction and the fact extractor's serialisation are trusted",
@@ -17,6 +18,16 @@ PROPS = {
                 explanation="The TinyLFU / sampled-LFU rule written as path predicates over impl_policy!::add, the min-search closure and "
                             "SampledLFU::fill_sample (both flavours): fast path when room >= 0, eviction only while fresh room < 0, strict `<` rejection, "
                             "victim = sampled minimum, sample refilled per round, five samples."),
+    "C13": dict(fn=props_sketch.check_C13, floor={"sync": 25, "async": 25},
+                explanation="Count-min sketch and TinyLFU decided structurally: get/increment address the same nibble, the increment is dominated by the "
+                            "saturation test on that nibble, reset halves / clear zeroes every byte of every row, increment and estimate index every row "
+                            "with (hash ^ seed[i]) & mask, estimate is a minimum fold, sizing obligations folded over all 64 powers of two, TinyLFU "
+                            "estimate/increment/try_reset/reset/clear shape, fresh state zero."),
+    "C14": dict(fn=props_sketch.check_C14, floor={"sync": 15, "async": 15},
+                explanation="Bloom filter decided structurally: add and contains probe the same positions the same number of times, set and is_set address "
+                            "the same (byte, bit), demanded-bits analysis shows which bits of the position reach the cell address, writer inventory of the bit "
+                            "array, reset/clear zero every word, sizing obligations (power-of-two size, mask, shift, word count, highest byte written) folded "
+                            "over every size exponent."),
 }
 
 NOT_APPLICABLE = {}
